@@ -38,6 +38,8 @@ type config struct {
 	stakes     []int64 // multiples of unit, one per voter (2..4 voters)
 	votePeriod uint64  // 0: default of the module (2)
 	offset     int     // blocks after an epoch start at which the detection is sent
+	unstake    bool    // adds unstake(v0) / unstake(v1): a listed voter leaves while the vote is open
+	prefix     []string // operations applied on top of the fixture; the exploration starts after them
 }
 
 const unit = int64(100000)
@@ -209,11 +211,36 @@ func build(cfg config) *scen {
 	for v := 0; v < s.n; v++ {
 		s.ops = append(s.ops, opdef{name: fmt.Sprintf("revealOtherHash(v%d)", v), kind: 4, voter: v})
 	}
+	if cfg.unstake {
+		// a listed voter unstakes while the vote is open: the vote is judged by the stakes of the epoch it started in,
+		// so the outcome model is unchanged; closing the vote must cope with a juror that is no longer staked
+		for v := 0; v < 2; v++ {
+			s.ops = append(s.ops, opdef{name: fmt.Sprintf("unstake(v%d)", v), kind: 7, voter: v})
+		}
+	}
 	s.ops = append(s.ops, opdef{name: "+1block", kind: 5}, opdef{name: "next-epoch", kind: 6})
 	for _, o := range s.ops {
 		s.names = append(s.names, o.name)
 	}
 	s.m = s.init
+	if len(cfg.prefix) > 0 {
+		for _, name := range cfg.prefix {
+			idx := -1
+			for i, n := range s.names {
+				if n == name {
+					idx = i
+				}
+			}
+			if idx < 0 {
+				panic("config: unknown prefix op " + name)
+			}
+			if st := s.Apply(idx); !st.Accepted || len(st.Viol) > 0 {
+				panic(fmt.Sprintf("fixture: prefix op %s: %+v", name, st))
+			}
+		}
+		s.init = s.m
+		w.MarkFixture()
+	}
 	return s
 }
 
@@ -428,6 +455,22 @@ func (s *scen) applyVote(op int) bfs.Step {
 		return bfs.Step{Accepted: true, Obs: label}
 	}
 
+	if o.kind == 7 {
+		res := w.Tx(func() error {
+			_, err := w.TxPairingUnstakeProvider(s.voters[o.voter].GetVaultAddr(), "mock")
+			return err
+		})
+		if res.Panic != "" {
+			return bfs.Step{Obs: "tx-panic", Viol: []ev.Violation{{Property: "C37", Key: "tx-panic:unstake", What: "unstake panicked: " + firstLine(res.Panic)}}}
+		}
+		if !res.OK() {
+			return bfs.Step{Accepted: false, Obs: "unstake-rejected"}
+		}
+		if viol := s.compare("tx"); len(viol) > 0 {
+			return bfs.Step{Accepted: true, Obs: "violation", Viol: viol}
+		}
+		return bfs.Step{Accepted: true, Obs: "unstaked"}
+	}
 	var res chain.TxResult
 	var expect bool
 	var why string
@@ -540,6 +583,10 @@ var configs = []config{
 	{name: "s111-vp1-mid", stakes: []int64{1, 1, 1}, votePeriod: 1, offset: 3},
 	{name: "s223-vp2-mid", stakes: []int64{2, 2, 3}, offset: 1},
 	{name: "s1124-vp1", stakes: []int64{1, 1, 2, 4}, votePeriod: 1},
+	{name: "s112-vp1-unstake", stakes: []int64{1, 1, 2}, votePeriod: 1, unstake: true},
+	// two of three voters (3/4 of the stake) have revealed for the same side: the exploration starts in the reveal phase
+	{name: "s112-vp1-revealed-unstake", stakes: []int64{1, 1, 2}, votePeriod: 1, unstake: true,
+		prefix: []string{"commit(v0,P0)", "commit(v1,P0)", "commit(v2,P0)", "next-epoch", "next-epoch", "reveal(v0)", "reveal(v2)"}},
 }
 
 func init() {
@@ -548,8 +595,8 @@ func init() {
 		bfs.Register("c20/"+c.name, func() bfs.Scenario { return build(c) })
 	}
 	reg.Register(reg.Check{Property: "C20", Level: "model_checking", Run: func(run *ev.Run) {
-		names := []string{"s112-vp1", "s113-vp2"}
-		deadline := 80 * time.Second
+		names := []string{"s112-vp1", "s113-vp2", "s112-vp1-revealed-unstake"}
+		deadline := 100 * time.Second
 		if ev.Tier() == "thorough" {
 			names = nil
 			for _, c := range configs {
@@ -578,6 +625,6 @@ func init() {
 		run.Set("exhaustive", exh)
 		run.Set("scenarios", names)
 		run.Set("bound", "complete reachable state graph (BFS to fixpoint, depth cap 64) of one response-conflict vote with 3 (one thorough scenario: 4) listed voters from its detection until one block after it closes; 21 ops (27 with 4 voters): commit(v,P0|P1|None) per voter, commit by an accused non-voter, reveal(v) with the committed data / wrong nonce / another option's hash per voter, +1 block, next epoch; scenarios = voter stakes x vote period x detection offset in the epoch")
-		run.Assume("keepers wired by testutil/keeper.InitAllKeepers with the mock bank; transactions atomic as in baseapp (driver); EpochBlocks=4, EpochsToSave=16 so that the stake entries of the vote's epoch outlive the vote; voters' stakes are static during the vote")
+		run.Assume("keepers wired by testutil/keeper.InitAllKeepers with the mock bank; transactions atomic as in baseapp (driver); EpochBlocks=4, EpochsToSave=16 so that the stake entries of the vote's epoch outlive the vote; voters' stakes are static during the vote except in the -unstake scenarios, where a listed voter may unstake (the vote is still judged by the stakes of the epoch it started in)")
 	}})
 }
